@@ -379,7 +379,8 @@ static int run_sequence(Choice& c, Report& rep) {
   Seq s;
   gen_sequence(c, s);
   int n = (int)s.ops.size();
-  if (getenv("C08_TRACE")) for (int i = 0; i < n; i++) { const Op& o = s.ops[i]; fprintf(stderr, "op %d %s style=%d bits=%d a=%u b=%u ft=%u misuse=%d\n", i, KIND_NAME[o.kind], o.style, o.bits, o.a, o.b, o.ft, o.misuse); }
+  static const bool trace = getenv("C08_TRACE") != nullptr;   // debugging aid: prints the decoded operations to stderr
+  if (trace) for (int i = 0; i < n; i++) { const Op& o = s.ops[i]; fprintf(stderr, "op %d %s style=%d bits=%d a=%u b=%u ft=%u misuse=%d\n", i, KIND_NAME[o.kind], o.style, o.bits, o.a, o.b, o.ft, o.misuse); }
 
   // ---- pass 1: big buffer, learn the usage, concretise steering, classify carries
   std::vector<long> T1(n + 1);
@@ -479,7 +480,7 @@ static int run_sequence(Choice& c, Report& rep) {
       }
     }
     tell[i + 1] = ec_tell(&e); frac[i + 1] = ec_tell_frac(&e); rngv[i + 1] = e.rng;
-    if (getenv("C08_TRACE")) fprintf(stderr, "  after op %d: err=%d offs=%u end_offs=%u rem=%d ext=%u rng=%08x val=%08x nend=%d storage=%u\n", i, e.error, e.offs, e.end_offs, e.rem, e.ext, e.rng, e.val, e.nend_bits, e.storage);
+    if (trace) fprintf(stderr, "  after op %d: err=%d offs=%u end_offs=%u rem=%d ext=%u rng=%08x val=%08x nend=%d storage=%u\n", i, e.error, e.offs, e.end_offs, e.rem, e.ext, e.rng, e.val, e.nend_bits, e.storage);
     VP_REQUIRE(frac[i + 1] >= frac[i], "c08:tell-frac-decreased", "op %d (%s): tell_frac %u -> %u", i, KIND_NAME[op.kind], frac[i], frac[i + 1]);
     long d = 8L * tell[i + 1] - (long)frac[i + 1];
     VP_REQUIRE(d >= 0 && d <= 8, "c08:tell-vs-frac", "op %d (%s): tell=%d tell_frac=%u", i, KIND_NAME[op.kind], tell[i + 1], frac[i + 1]);
